@@ -276,7 +276,7 @@ func (r *run) judge(o judgeOpts) []finding {
 			ctx := o.doubleCtx
 			if r.fired {
 				ctx = "after-storage-" + r.plan.Kind + "-fault"
-				if r.plan.Kind == "lock" || r.plan.Kind == "unlock" {
+				if r.plan.Kind == "lock" || r.plan.Kind == "unlock" || r.plan.Kind == "unlockerr" {
 					ctx = "after-" + r.plan.Kind + "-fault"
 				}
 			}
